@@ -137,6 +137,16 @@ def generate(rng, tier, mode="default"):
             for plan in ("0", "10", "110", "1110", "1101", "11011"):
                 out.append([hdr(cap=cap, mem=mem, plan=plan)] + fill[:4] + ["copy_deep", "trim", "filter 2 1", "END"])
                 out.append([hdr("queue", cap=cap, mem=mem, plan=plan), "enqueue 1", "enqueue 2", "new2 3", "enqueue2 5", "enqueue 3", "poll", "END"])
+    # (b0) upper_pow_two on both sides of every power of two up to 2^20 (2^22 thorough): the constructor's rounded
+    #      capacity is a public observation, so the whole or-shift cascade is compared, not just its low steps
+    for k in range(1, 21 if quick else 23):
+        for cap in (2 ** k - 1, 2 ** k, 2 ** k + 1):
+            out.append([hdr(cap=cap), "add_last 5", "add_first 6", "remove_last", "END"])
+            out.append([hdr("queue", cap=cap), "enqueue 5", "poll", "END"])
+    # trim after shrinking across a power-of-two boundary above 2^16 (thorough only: needs > 65536 elements)
+    if not quick:
+        for n in (65537, 131073):
+            out.append([hdr(cap=4)] + ["add_last %d" % i for i in range(n)] + ["remove_first", "remove_last", "trim", "add_last 9", "add_first 8", "END"])
     # (c0) zip iterator add under every single refusal: one deque exactly full, the other with room (both orders)
     for swap in (0, 1):
         for k in range(0, 9):
